@@ -11,6 +11,7 @@
   R6 cache typestate       every writer of Axis._values resets _monotonic afterwards on every path
   R7 constructor forms     _init_axes is total (returns Axes or raises TypeError); zeros/ones/nans/empty go through the
                            checked constructor and fill with the promised constant
+  R10 axes growth          an Axes list grows only through Axes.append (duplicate-name test); no extend / += / raw list primitives
   R8 environment           NumPy calls on the constructor path are valid under the pinned NumPy (np.array(copy=False) rule)
 """
 import ast
@@ -592,6 +593,57 @@ def rule_env(ctx):
     npapi.check_reachable(ctx, 'R8', [init, ctx.fn(AX + '_init_axes'), ctx.fn(AX + 'Axis.__init__')], depth=3)
 
 
+RAW_LIST_SITES = {
+    # (function, list.<method>) -> why the unchecked list primitive is fine there
+    (AX + 'Axes.__init__', '__init__'): 'empty list, then checked append per element',
+    (AX + 'Axes.append', 'append'): 'the checked append itself (after the duplicate-name test)',
+    (AX + 'Axes.__setitem__', '__setitem__'): 'the checked replacement itself (after the size test)',
+    (AX + 'Axes.insert', 'insert'): 'type-checked insert (callers check the name: C10)',
+    (AX + 'Axes.pop', 'pop'): 'removal by resolved position',
+    ('dimarray.dataset.DatasetAxes.__deepcopy__', 'append'): 'deep copy of an already checked DatasetAxes, element by element',
+}
+
+
+def rule_axes_growth(ctx):
+    """R10: an Axes list grows only through Axes.append, which is where duplicate dimension names are rejected"""
+    ctx.rule('R10', 'Axes grow only through the checked append (no extend / += / raw list primitives outside the wrappers)', 5)
+    P = ctx.P
+    axes_classes = set(q for q, c in P.classes.items() if any((m if isinstance(m, str) else m.qualname) == AX + 'Axes' for m in c.mro))
+    n = 0
+    for fi in sorted(P.functions.values(), key=lambda f: f.qualname):
+        if fi.file.startswith(('dimarray/io/', 'dimarray/convert/')):
+            continue
+        in_axes_cls = fi.cls is not None and fi.cls.qualname in axes_classes
+        typed = set()
+        if in_axes_cls and fi.params and fi.params[0] == 'self':
+            typed.add('self')
+        for node in ast.walk(fi.node):
+            if isinstance(node, ast.Assign) and isinstance(node.value, ast.Call) and isinstance(node.value.func, ast.Name):
+                callee = node.value.func.id
+                if (callee == 'cls' and in_axes_cls) or callee in ('Axes', 'DatasetAxes'):
+                    for t in node.targets:
+                        if isinstance(t, ast.Name):
+                            typed.add(t.id)
+        for node in ast.walk(fi.node):
+            if isinstance(node, ast.Call) and isinstance(node.func, ast.Attribute):
+                f = node.func
+                if isinstance(f.value, ast.Name) and f.value.id == 'list' and f.attr in ('append', 'extend', 'insert', '__setitem__', '__iadd__', 'pop', 'remove', '__init__', '__delitem__'):
+                    key = (fi.qualname, f.attr)
+                    if key in RAW_LIST_SITES:
+                        n += 1
+                        ctx.holds('R10', 'list.%s in %s: %s' % (f.attr, fi.qualname.replace('dimarray.', ''), RAW_LIST_SITES[key]))
+                    elif node.args and isinstance(node.args[0], ast.Name) and (node.args[0].id in typed or in_axes_cls):
+                        ctx.violated('R10', fi, node, 'raw list.%s on an Axes object by-passes the checks of the Axes wrappers (duplicate names, sizes)' % f.attr, node=node)
+                elif isinstance(f.value, ast.Name) and f.value.id in typed and f.attr in ('extend', '__iadd__'):
+                    ctx.violated('R10', fi, node, '%s.%s(...) on an Axes object: list.extend is inherited unchecked, so duplicate dimension names are accepted '
+                                 '(only Axes.append tests the name)' % (f.value.id, f.attr), node=node)
+                elif isinstance(f.value, ast.Name) and f.value.id in typed and f.attr == 'append':
+                    n += 1
+            if isinstance(node, ast.AugAssign) and isinstance(node.target, ast.Name) and node.target.id in typed and isinstance(node.op, ast.Add):
+                ctx.violated('R10', fi, node, '%s += ... on an Axes object extends the list without the duplicate-name test of Axes.append' % node.target.id, node=node)
+    ctx.info('R10: %d checked growth sites' % n)
+
+
 def check(ctx):
     rule_constructor(ctx)
     rule_who_may_write(ctx)
@@ -602,6 +654,7 @@ def check(ctx):
     rule_forms(ctx)
     rule_env(ctx)
     rule_subclass_fields(ctx)
+    rule_axes_growth(ctx)
     ctx.not_decided += ['equality of arrays built from different argument forms (value level)',
                         'staleness of a MultiAxis label cache caused by another array mutating a shared member axis',
                         'Axes.from_dict ordering by shape (value level)']
